@@ -42,6 +42,22 @@ func TestReplay(t *testing.T) {
 			vs, _, _ := CheckSession(c)
 			return vs
 		},
+		"TestFirewallUnderDatabaseTraffic": func(raw json.RawMessage) hx.Vs {
+			var c FloodCase
+			if err := json.Unmarshal(raw, &c); err != nil {
+				return hx.Vs{{Sig: "harness:decode", Msg: err.Error()}}
+			}
+			if !dialectOfThisProcess("postgresql") {
+				return nil
+			}
+			// schedule-dependent: the saved session is run a few times
+			for i := 0; i < 5; i++ {
+				if vs, _, _ := CheckFlood(c); len(vs) > 0 {
+					return vs
+				}
+			}
+			return nil
+		},
 		"TestFirewallSessionsMySQL": func(raw json.RawMessage) hx.Vs {
 			var c MyFwCase
 			if err := json.Unmarshal(raw, &c); err != nil {
